@@ -626,7 +626,7 @@ Proof.
   - cbn in Hc. apply andb_prop in Hc as [H1 H2]. destruct i; cbn; auto.
 Qed.
 
-(* no list element that is a mapping is replaced (Match / Replace at a cost): the shape of finding D23, where
+(* no list element that is a mapping is replaced (Match / Replace at a cost): the shape of finding D33, where
    the edit is printed twice (RenderModel.from_to_twice) *)
 Fixpoint clean (inl : bool) (a : tree) (e : edit) {struct e} : bool :=
   match e with
@@ -1434,7 +1434,7 @@ Proof.
   - rewrite (C06_second_all lay a b e Ha Hb He Hc), (nproj_doc true a b e Hv Hf Ho Hk), toks_tprint by exact Hb. reflexivity.
 Qed.
 
-(* finding D23: a mapping replaced as an element of a list is printed  from -> to -> to ; neither projection is
+(* finding D33: a mapping replaced as an element of a list is printed  from -> to -> to ; neither projection is
    the print of any document the script could spell *)
 Theorem C06_mapping_replaced_refuted :
   exists lay a b e, tok_ok a = true /\ tok_ok b = true /\ edit_ok e = true /\ valid a b e = true /\
